@@ -59,6 +59,7 @@ type RunResult struct {
 	Harness     string         `json:"harness_error,omitempty"`
 	PrefixSeeds []uint64       `json:"prefix_seeds,omitempty"`
 	Tier        string         `json:"tier,omitempty"`
+	TZ          string         `json:"tz,omitempty"` // time zone of the process that executed the run
 }
 
 // freeRunning: tasks run as ordinary goroutines with real parallelism and no scheduler (the
@@ -124,6 +125,9 @@ func execFree(c *Corpus, rc *refCache, sp *RunSpec) *RunResult {
 	res.WallMs = time.Since(t0).Milliseconds()
 	return res
 }
+
+// deadlockEmit writes the result of a run whose calls never return (installed by batchMain).
+var deadlockEmit func(*RunResult)
 
 // checkForeign is set when the instrumenter saw `go` statements in repository code.
 var checkForeign bool
@@ -540,6 +544,23 @@ func execRun(c *Corpus, rc *refCache, sp *RunSpec, replay *Decisions) *RunResult
 				failedDuring[ti][oi] = s.FailCount() != before
 			}
 		}
+	}
+	simrt.DeadlockHook = func(stacks string) {
+		// the calls of this run will never return: report it and leave the process (its goroutines are stuck)
+		res.Stats = s.St
+		res.Dec = &Decisions{Switches: s.Trace, Maps: s.MapTrace, Fails: s.FailTrace}
+		res.Spec = sp
+		res.PrefixSeeds = prefixSeeds
+		if len(stacks) > 5000 {
+			stacks = stacks[:5000]
+		}
+		res.Violation = &Violation{Class: "deadlock", Task: -1, Op: -1, Kind: "deadlock",
+			Detail: "all unfinished calls are blocked on synchronisation of the library and nothing else is runnable: the calls never return | " + stacks,
+			Sig:    "deadlock:calls_never_return"}
+		if deadlockEmit != nil {
+			deadlockEmit(res)
+		}
+		os.Exit(0)
 	}
 	ts := time.Now()
 	s.Run(tasks)
